@@ -90,6 +90,7 @@ type Sched struct {
 	// IdleFire: when nothing is enabled, advance to the next timer deadline if it
 	// lies within this horizon (0 = never).
 	IdleFire   time.Duration
+	IdleTies   bool
 	MaxSteps   int
 	Violations []string
 	Diverged   string
@@ -520,6 +521,9 @@ type Options struct {
 	MaxSteps  int
 	WritePref bool
 	LogOn     bool
+	// IdleTies: idle sleepers whose instant has come are all enabled together (and so interleave with each other
+	// and with whatever the first of them starts); without it they are woken one per quiescence.
+	IdleTies bool
 }
 
 // RunOne executes body under the scheduler inside the current synctest bubble,
@@ -529,7 +533,7 @@ type Options struct {
 // a teardown function that runs after all parked threads have been released.
 func RunOne(prefix []int, opt Options, body func(s *Sched) (check func() []string, teardown func())) *Result {
 	s := &Sched{byGoid: map[uint64]*Thread{}, prefix: prefix, FireSlack: opt.FireSlack, IdleFire: opt.IdleFire,
-		MaxSteps: opt.MaxSteps, WritePref: opt.WritePref, LogOn: opt.LogOn}
+		MaxSteps: opt.MaxSteps, WritePref: opt.WritePref, LogOn: opt.LogOn, IdleTies: opt.IdleTies}
 	if s.MaxSteps == 0 {
 		s.MaxSteps = 5000
 	}
@@ -640,6 +644,11 @@ func (s *Sched) loop(res *Result) {
 		var idle []*Thread
 		for _, t := range s.threads {
 			if t.state == stParked && t.pend.isIdle {
+				if s.IdleTies && !t.pend.until.After(time.Now()) {
+					cands = append(cands, t) // its instant has come
+
+					continue
+				}
 				idle = append(idle, t)
 
 				continue
@@ -698,6 +707,9 @@ func (s *Sched) loop(res *Result) {
 			if haveTimer && nt.Before(best.pend.until) {
 				// a timer is due before the sleeper wakes: move the clock there first
 				menu = append(menu, choice{clock: nt.Sub(now), label: "clock:timer-before-sleeper"})
+			} else if s.IdleTies {
+				// move the clock only: every sleeper due at that instant is enabled at the next step
+				menu = append(menu, choice{clock: best.pend.until.Sub(now), label: "clock:to-next-sleeper"})
 			} else {
 				d := best.pend.until.Sub(now)
 				if d < 0 {
